@@ -273,9 +273,9 @@ func TestInstanceRingHistoryRapid(t *testing.T) {
 							}
 						}
 						// members that are not healthy for the operation are members too
-						for _, in := range cur {
-							if sub.HasInstance(in.Id) {
-								h.members[in.Id] = true
+						for id := range cur { // by key: entries of older writers carry no Id field
+							if sub.HasInstance(id) {
+								h.members[id] = true
 							}
 						}
 						held = append(held, h)
